@@ -16,9 +16,10 @@
   with any INTERVAL ≥ 1, BYMONTH, BYMONTHDAY, BYYEARDAY, plain BYDAY (any BYDAY for DAILY / WEEKLY,
   where nth members are demoted), BYHOUR, BYMINUTE, BYSECOND, BYSETPOS (DAILY / MONTHLY / YEARLY; WEEKLY
   only when the start is on the week start, see D-C01e), the defaults taken from the start, COUNT, UNTIL (for WEEKLY: UNTIL not before
-  the start), plus `iter_eq_spec_monthly_nth_partial`: MONTHLY with nth weekdays.  Missing: the three
-  sub-daily frequencies (the model skips empty periods, so the refinement is not period-by-period),
-  BYWEEKNO, YEARLY nth BYDAY, and BYEASTER (for the latter the mask lemma
+  the start), plus `iter_eq_spec_monthly_nth_partial` / `iter_eq_spec_yearly_nth_partial`: nth weekdays counted
+  inside the month (MONTHLY) or the year (YEARLY without BYMONTH).  Missing: the three sub-daily
+  frequencies (the model skips empty periods, so the refinement is not period-by-period), BYWEEKNO,
+  YEARLY nth BYDAY inside BYMONTH months, mixing nth BYDAY with BYMONTHDAY, and BYEASTER (for the latter the mask lemma
   `eastermask_marks_easter_offsets` is proved but not yet wired into the refinement).  Everything else below — including
   `iter_strictMono` for all seven frequencies — is proved for ALL rules / all argument sets, with no
   `Supported` hypothesis (so also inside the known-defect classes).
@@ -31,6 +32,7 @@ import DateutilVerif.Proofs.RRuleEaster
 import DateutilVerif.Proofs.RRuleNth
 import DateutilVerif.Proofs.RRuleValid
 import DateutilVerif.Proofs.RRuleNthMonthly
+import DateutilVerif.Proofs.RRuleNthYearly
 
 namespace C01
 open RRule Cal RRule.Tables
@@ -316,6 +318,15 @@ theorem iter_eq_spec_monthly_nth_partial (a : Args) (r : Rule) (na : NthMArgs a)
     (iter r n).1 = Spec.RRule.occ a n :=
   iter_eq_spec_monthly_nth na h n hm
 
+/-- **`iter_eq_spec`, proved portion, YEARLY with nth weekdays counted inside the year** ("the 20th
+    Monday of the year", "the last Sunday of the year"): INTERVAL ≥ 1, valid start, no BYMONTH, BYDAY made
+    of nth weekdays only (any magnitude), any BYYEARDAY / BYHOUR / BYMINUTE / BYSECOND / BYSETPOS, any COUNT /
+    UNTIL, no BYMONTHDAY / BYWEEKNO / BYEASTER: exactly the specification's recurrence set. -/
+theorem iter_eq_spec_yearly_nth_partial (a : Args) (r : Rule) (na : NthYArgs a) (h : construct a = .ok r)
+    (n : Nat) (hy : a.dtstart.y + n * a.interval ≤ 9999) :
+    (iter r n).1 = Spec.RRule.occ a n :=
+  iter_eq_spec_yearly_nth na h n hy
+
 /-! ### non-vacuity and the known-finding witnesses reproduced by the model -/
 
 def dt (y m d : Int) (hh : Int := 0) (mm : Int := 0) (ss : Int := 0) : DT := { y, m, d, hh, mm, ss, us := 0 }
@@ -360,6 +371,12 @@ example : NthMArgs { freq := 1, dtstart := dt 2024 1 1 18, byweekday := some [(4
   ⟨rfl, by decide, by decide, rfl, rfl, rfl, ⟨[(4, -1)], rfl, by decide, by decide⟩⟩
 example : dates (construct { freq := 1, dtstart := dt 2024 1 1 18, byweekday := some [(4, -1)] }) 3
     = [(2024, 1, 26), (2024, 2, 23), (2024, 3, 29)] := by decide +kernel
+
+-- an NthYArgs instance: the 20th Monday of every year (RFC 5545 example)
+example : NthYArgs { freq := 0, dtstart := dt 1997 5 19 9, byweekday := some [(0, 20)] } :=
+  ⟨rfl, by decide, by decide, rfl, rfl, rfl, rfl, ⟨[(0, 20)], rfl, by decide, by decide⟩⟩
+example : dates (construct { freq := 0, dtstart := dt 1997 5 19 9, byweekday := some [(0, 20)] }) 3
+    = [(1997, 5, 19), (1998, 5, 18), (1999, 5, 17)] := by decide +kernel
 
 -- D-C01a: MONTHLY with plain MO and nth TU(1): nothing in a whole year although the set has every Monday
 example : dates (construct { freq := 1, dtstart := dt 2020 1 1 9, byweekday := some [(0, 0), (1, 1)] }) 12 = [] := by
